@@ -415,3 +415,28 @@ SUBS = [
     Sub("standardize", check_standardize, strategy=lambda t: std_case(t), budget=(1500, 15000)),
     Sub("multimerge", check_merge, strategy=lambda t: merge_case(t), budget=(2000, 20000)),
 ]
+
+
+# ---------------------------------------------------------------------------
+# thorough tier: coverage-guided fuzzing (atheris) of the two predicates (bytes -> object tree), same oracle inside
+# ---------------------------------------------------------------------------
+def _fuzz_obj(fdp, depth=0):
+    kind = fdp.ConsumeIntInRange(0, 9 if depth < 2 else 3)
+    if kind == 0:
+        return ["leaf", fdp.ConsumeIntInRange(0, len(LEAVES) - 1)]
+    if kind in (1, 2):
+        n = fdp.ConsumeIntInRange(0, 8)
+        pool = G.AA + "cfwX \n-"
+        return ["text", "".join(pool[fdp.ConsumeIntInRange(0, len(pool) - 1)] for _ in range(n))]
+    if kind == 3:
+        return ["text", fdp.ConsumeUnicodeNoSurrogates(6)]
+    t = ["list", "tuple", "dict", "set", "frozenset", "ndarray"][kind - 4]
+    return [t, [_fuzz_obj(fdp, depth + 1) for _ in range(fdp.ConsumeIntInRange(0, 3))]]
+
+
+def fuzz_decode_predicate(fdp):
+    return {"obj": _fuzz_obj(fdp)}
+
+
+FUZZ = {"predicates": (fuzz_decode_predicate, "predicates_random")}
+FUZZ_RUNS = 160000
